@@ -3,4 +3,454 @@ import SigV4.Spec.HeaderSpec
 
 namespace SigV4
 
+/-! ### Bytes -/
+
+theorem u8_forall {P : UInt8 → Prop} (h : ∀ n : Fin 256, P (UInt8.ofNat n.val)) : ∀ c, P c := by
+  intro c
+  have := h ⟨c.toNat, c.toNat_lt⟩
+  simpa using this
+
+set_option maxRecDepth 100000 in
+theorem toLowerByte_idem : ∀ c : UInt8, toLowerByte (toLowerByte c) = toLowerByte c := by
+  apply u8_forall
+  decide
+
+theorem asciiLower_idem (s : Bytes) : asciiLower (asciiLower s) = asciiLower s := by
+  induction s with
+  | nil => rfl
+  | cons c cs ih =>
+    simp only [asciiLower, List.map_cons, List.cons.injEq] at ih ⊢
+    exact ⟨toLowerByte_idem c, ih⟩
+
+/-! ### `dropWhileEnd` -/
+
+theorem dropWhileEnd_nil (p : UInt8 → Bool) : dropWhileEnd p [] = [] := rfl
+
+theorem dropWhileEnd_cons (p : UInt8 → Bool) (c : UInt8) (s : Bytes) :
+    dropWhileEnd p (c :: s) =
+      if p c = true ∧ dropWhileEnd p s = [] then [] else c :: dropWhileEnd p s := by
+  unfold dropWhileEnd
+  rw [List.reverse_cons, List.dropWhile_append]
+  by_cases h : (List.dropWhile p s.reverse) = []
+  · by_cases hc : p c = true <;> simp [h, hc]
+  · simp [h]
+
+theorem dropWhileEnd_append_singleton_pos (p : UInt8 → Bool) (s : Bytes) (c : UInt8) (h : p c = true) :
+    dropWhileEnd p (s ++ [c]) = dropWhileEnd p s := by
+  unfold dropWhileEnd
+  simp [List.reverse_append, h]
+
+theorem dropWhileEnd_eq_self (p : UInt8 → Bool) (s : Bytes)
+    (h : ∀ c, s.getLast? = some c → p c = false) : dropWhileEnd p s = s := by
+  unfold dropWhileEnd
+  cases hs : s.reverse with
+  | nil => simp at hs; simp [hs]
+  | cons c t =>
+    have hl : s.getLast? = some c := by
+      rw [List.getLast?_eq_head?_reverse, hs]; rfl
+    have hp := h c hl
+    rw [List.dropWhile_cons, hp]
+    simp only [Bool.false_eq_true, if_false]
+    rw [← hs, List.reverse_reverse]
+
+/-- The result of `dropWhileEnd` is a prefix of the input. -/
+theorem dropWhileEnd_prefix (p : UInt8 → Bool) (s : Bytes) : ∃ t, s = dropWhileEnd p s ++ t := by
+  induction s with
+  | nil => exact ⟨[], rfl⟩
+  | cons c s ih =>
+    rw [dropWhileEnd_cons]
+    obtain ⟨t, ht⟩ := ih
+    split
+    · exact ⟨c :: s, rfl⟩
+    · exact ⟨t, by rw [List.cons_append, ← ht]⟩
+
+theorem dropWhileEnd_getLast (p : UInt8 → Bool) (s : Bytes) (c : UInt8)
+    (h : (dropWhileEnd p s).getLast? = some c) : p c = false := by
+  induction s with
+  | nil => simp [dropWhileEnd_nil] at h
+  | cons d s ih =>
+    rw [dropWhileEnd_cons] at h
+    split at h
+    · simp at h
+    · rename_i hn
+      cases hd : dropWhileEnd p s with
+      | nil =>
+        rw [hd] at h
+        simp at h
+        subst h
+        cases hp : p d with
+        | false => rfl
+        | true => exact absurd ⟨hp, hd⟩ hn
+      | cons e t =>
+        rw [hd] at h ih
+        rw [List.getLast?_cons_cons] at h
+        exact ih h
+
+/-! ### The `Good` shape: no leading space (when the flag is set) and no doubled space -/
+
+def Good : Bool → Bytes → Prop
+  | _, [] => True
+  | lws, c :: cs => (c = 0x20 → lws = false) ∧ Good (c == 0x20) cs
+
+theorem good_nhvLoop (lws : Bool) (v : Bytes) : Good lws (nhvLoop lws v) := by
+  induction v generalizing lws with
+  | nil => simp [nhvLoop, Good]
+  | cons c cs ih =>
+    unfold nhvLoop
+    by_cases hc : c = 0x20
+    · cases lws
+      · rw [if_pos hc, if_neg (by simp)]
+        exact ⟨fun _ => rfl, by simpa using ih true⟩
+      · rw [if_pos hc, if_pos rfl]
+        exact ih true
+    · rw [if_neg hc]
+      refine ⟨fun h => absurd h hc, ?_⟩
+      have : (c == 0x20) = false := by simpa using hc
+      rw [this]
+      exact ih false
+
+theorem good_prefix (lws : Bool) (a b : Bytes) (h : Good lws (a ++ b)) : Good lws a := by
+  induction a generalizing lws with
+  | nil => simp [Good]
+  | cons c cs ih =>
+    simp only [List.cons_append, Good] at h ⊢
+    exact ⟨h.1, ih _ h.2⟩
+
+theorem good_head (l : Bytes) (h : Good true l) : l.head? ≠ some (0x20 : UInt8) := by
+  cases l with
+  | nil => simp
+  | cons c cs =>
+    simp only [Good] at h
+    intro hc
+    simp at hc
+    have := h.1 hc
+    simp at this
+
+theorem good_nodbl (lws : Bool) (l : Bytes) (h : Good lws l) (i : Nat)
+    (hi : l[i]? = some (0x20 : UInt8)) : l[i+1]? ≠ some (0x20 : UInt8) := by
+  induction l generalizing lws i with
+  | nil => simp
+  | cons c cs ih =>
+    simp only [Good] at h
+    cases i with
+    | succ j =>
+      simp only [List.getElem?_cons_succ] at hi ⊢
+      exact ih _ h.2 j hi
+    | zero =>
+      simp only [List.getElem?_cons_zero, Option.some.injEq] at hi
+      subst hi
+      simp only [Nat.zero_add, List.getElem?_cons_succ]
+      cases cs with
+      | nil => simp
+      | cons d ds =>
+        simp only [List.getElem?_cons_zero, ne_eq, Option.some.injEq]
+        have h2 := h.2
+        simp only [Good] at h2
+        intro hd
+        have := h2.1 hd
+        simp at this
+
+theorem nhvLoop_of_good (lws : Bool) (l : Bytes) (h : Good lws l) : nhvLoop lws l = l := by
+  induction l generalizing lws with
+  | nil => rfl
+  | cons c cs ih =>
+    simp only [Good] at h
+    unfold nhvLoop
+    by_cases hc : c = 0x20
+    · have hl := h.1 hc
+      subst hl
+      have h2 := h.2
+      simp only [hc, if_true, Bool.false_eq_true, if_false, List.cons.injEq, true_and]
+      simp only [hc, beq_self_eq_true] at h2
+      exact ih true h2
+    · simp only [hc, if_false, List.cons.injEq, true_and]
+      have h2 := h.2
+      have : (c == 0x20) = false := by simpa using hc
+      rw [this] at h2
+      exact ih false h2
+
+/-! ### Extra spaces -/
+
+theorem nhvLoop_double_space (lws : Bool) (a b : Bytes) :
+    nhvLoop lws (a ++ 0x20 :: 0x20 :: b) = nhvLoop lws (a ++ 0x20 :: b) := by
+  induction a generalizing lws with
+  | nil => cases lws <;> simp [nhvLoop]
+  | cons c cs ih =>
+    simp only [List.cons_append]
+    unfold nhvLoop
+    simp only [ih]
+
+theorem nhvLoop_trailing_space (lws : Bool) (a : Bytes) :
+    ∃ t, (t = [] ∨ t = [0x20]) ∧ nhvLoop lws (a ++ [0x20]) = nhvLoop lws a ++ t := by
+  induction a generalizing lws with
+  | nil => cases lws <;> simp [nhvLoop]
+  | cons c cs ih =>
+    simp only [List.cons_append]
+    unfold nhvLoop
+    obtain ⟨t1, ht1, e1⟩ := ih true
+    obtain ⟨t2, ht2, e2⟩ := ih false
+    by_cases hc : c = 0x20
+    · cases lws
+      · exact ⟨t1, ht1, by simp [hc, e1]⟩
+      · exact ⟨t1, ht1, by simp [hc, e1]⟩
+    · exact ⟨t2, ht2, by simp [hc, e2]⟩
+
+/-! ### `splitOn` / `joinWith` -/
+
+theorem splitOn_ne_nil (sep : UInt8) (s : Bytes) : splitOn sep s ≠ [] := by
+  induction s with
+  | nil => simp [splitOn]
+  | cons c cs ih =>
+    unfold splitOn
+    split
+    · simp
+    · split <;> simp
+
+theorem joinWith_cons (sep : Bytes) (x : Bytes) (xs : List Bytes) :
+    joinWith sep (x :: xs) = x ++ xs.flatMap (fun y => sep ++ y) := by
+  induction xs generalizing x with
+  | nil => simp [joinWith]
+  | cons y ys ih =>
+    simp only [joinWith, ih, List.flatMap_cons, List.append_assoc]
+
+theorem refHeaderValue_nil : refHeaderValue [] = [] := by decide
+
+theorem refHeaderValue_space (cs : Bytes) : refHeaderValue (0x20 :: cs) = refHeaderValue cs := by
+  simp [refHeaderValue, splitOn]
+
+/-- The words of a value. -/
+def wordsOf (v : Bytes) : List Bytes := (splitOn 0x20 v).filter (· ≠ [])
+
+theorem refHeaderValue_eq_words (v : Bytes) : refHeaderValue v = joinWith [0x20] (wordsOf v) := rfl
+
+theorem wordsOf_ne_nil (v : Bytes) : ∀ w ∈ wordsOf v, w ≠ [] := by
+  intro w hw
+  simp [wordsOf] at hw
+  exact hw.2
+
+theorem spaced_words (L : List Bytes) (h : ∀ w ∈ L, w ≠ []) :
+    L.flatMap (fun y => [(0x20 : UInt8)] ++ y) =
+      if joinWith [0x20] L = [] then [] else 0x20 :: joinWith [0x20] L := by
+  cases L with
+  | nil => simp [joinWith]
+  | cons x xs =>
+    have hx : x ≠ [] := h x (by simp)
+    rw [joinWith_cons]
+    simp [hx]
+
+theorem refHeaderValue_single (c : UInt8) (hc : c ≠ 0x20) : refHeaderValue [c] = [c] := by
+  simp [refHeaderValue, splitOn, hc, joinWith]
+
+theorem refHeaderValue_cons_space (c : UInt8) (hc : c ≠ 0x20) (cs : Bytes) :
+    refHeaderValue (c :: 0x20 :: cs) =
+      c :: (if refHeaderValue cs = [] then [] else 0x20 :: refHeaderValue cs) := by
+  have h1 : wordsOf (c :: 0x20 :: cs) = [c] :: wordsOf cs := by
+    simp [wordsOf, splitOn, hc]
+  rw [refHeaderValue_eq_words, h1, joinWith_cons, spaced_words _ (wordsOf_ne_nil cs),
+    ← refHeaderValue_eq_words]
+  rfl
+
+theorem refHeaderValue_cons_cons (c d : UInt8) (hc : c ≠ 0x20) (hd : d ≠ 0x20) (cs : Bytes) :
+    refHeaderValue (c :: d :: cs) = c :: refHeaderValue (d :: cs) := by
+  rcases hs : splitOn 0x20 cs with _ | ⟨p, ps⟩
+  · exact absurd hs (splitOn_ne_nil _ _)
+  · have h1 : wordsOf (d :: cs) = (d :: p) :: ps.filter (· ≠ []) := by
+      simp [wordsOf, splitOn, hd, hs]
+    have h2 : wordsOf (c :: d :: cs) = (c :: d :: p) :: ps.filter (· ≠ []) := by
+      simp [wordsOf, splitOn, hc, hd, hs]
+    rw [refHeaderValue_eq_words, refHeaderValue_eq_words, h1, h2, joinWith_cons, joinWith_cons]
+    rfl
+
+/-! ### `normHeaderValue` against the reference -/
+
+/-- Trimmed loop output with an arbitrary initial flag. -/
+def normFrom (lws : Bool) (v : Bytes) : Bytes := dropWhileEnd (· == 0x20) (nhvLoop lws v)
+
+/-- What `normFrom false` is in terms of the reference. -/
+def refFalse (v : Bytes) : Bytes :=
+  match v with
+  | [] => []
+  | c :: cs =>
+    if c = 0x20 then (if refHeaderValue cs = [] then [] else 0x20 :: refHeaderValue cs)
+    else refHeaderValue (c :: cs)
+
+theorem normFrom_space_true (cs : Bytes) : normFrom true (0x20 :: cs) = normFrom true cs := by
+  simp [normFrom, nhvLoop]
+
+theorem normFrom_space_false (cs : Bytes) :
+    normFrom false (0x20 :: cs) = if normFrom true cs = [] then [] else 0x20 :: normFrom true cs := by
+  by_cases h : normFrom true cs = []
+  · have h' := h
+    simp only [normFrom] at h'
+    simp [normFrom, nhvLoop, dropWhileEnd_cons, h']
+  · have h' := h
+    simp only [normFrom] at h'
+    simp [normFrom, nhvLoop, dropWhileEnd_cons, h']
+
+theorem normFrom_nonspace (lws : Bool) (c : UInt8) (hc : c ≠ 0x20) (cs : Bytes) :
+    normFrom lws (c :: cs) = c :: normFrom false cs := by
+  simp [normFrom, nhvLoop, dropWhileEnd_cons, hc]
+
+theorem refHeaderValue_nonspace (c : UInt8) (hc : c ≠ 0x20) (cs : Bytes) :
+    refHeaderValue (c :: cs) = c :: refFalse cs := by
+  cases cs with
+  | nil => simp [refFalse, refHeaderValue_single c hc]
+  | cons d ds =>
+    by_cases hd : d = 0x20
+    · subst hd
+      rw [refHeaderValue_cons_space c hc]
+      simp [refFalse]
+    · rw [refHeaderValue_cons_cons c d hc hd]
+      simp [refFalse, hd]
+
+theorem normFrom_eq (v : Bytes) :
+    normFrom true v = refHeaderValue v ∧ normFrom false v = refFalse v := by
+  induction v with
+  | nil => exact ⟨by decide, by decide⟩
+  | cons c cs ih =>
+    by_cases hc : c = 0x20
+    · subst hc
+      rw [normFrom_space_true, normFrom_space_false, refHeaderValue_space, ih.1]
+      simp [refFalse]
+    · rw [normFrom_nonspace _ c hc, normFrom_nonspace _ c hc, ih.2]
+      refine ⟨(refHeaderValue_nonspace c hc cs).symm, ?_⟩
+      simp only [refFalse, hc, if_false]
+      exact (refHeaderValue_nonspace c hc cs).symm
+
+theorem normHeaderValue_eq_ref (v : Bytes) : normHeaderValue v = refHeaderValue v :=
+  (normFrom_eq v).1
+
+/-! ### Shape -/
+
+theorem normHeaderValue_good (v : Bytes) : Good true (normHeaderValue v) := by
+  obtain ⟨t, ht⟩ := dropWhileEnd_prefix (· == 0x20) (nhvLoop true v)
+  have h := good_nhvLoop true v
+  rw [ht] at h
+  exact good_prefix _ _ _ h
+
+theorem normHeaderValue_last (v : Bytes) : (normHeaderValue v).getLast? ≠ some (0x20 : UInt8) := by
+  intro h
+  have := dropWhileEnd_getLast (· == 0x20) (nhvLoop true v) 0x20 h
+  simp at this
+
+theorem normHeaderValue_fix (l : Bytes) (hg : Good true l) (hl : l.getLast? ≠ some (0x20 : UInt8)) :
+    normHeaderValue l = l := by
+  unfold normHeaderValue
+  rw [nhvLoop_of_good _ _ hg]
+  apply dropWhileEnd_eq_self
+  intro c hc
+  cases hb : (c == 0x20) with
+  | false => rfl
+  | true =>
+    have : c = 0x20 := by simpa using hb
+    subst this
+    exact absurd hc hl
+
+/-! ### Grouping -/
+
+theorem assocGet_assocPush {β : Type} (m : List (Bytes × List β)) (k name : Bytes) (v : β) :
+    assocGet (assocPush m k v) name =
+      if k = name then some ((assocGet m name).getD [] ++ [v]) else assocGet m name := by
+  induction m with
+  | nil =>
+    by_cases h : k = name <;> simp [assocPush, assocGet, h]
+  | cons e rest ih =>
+    obtain ⟨k', vs⟩ := e
+    unfold assocPush
+    by_cases h1 : k' = k
+    · subst h1
+      by_cases h2 : k' = name <;> simp [assocGet, h2]
+    · simp only [h1, if_false]
+      by_cases h2 : k' = name
+      · subst h2
+        have : ¬ k = k' := fun h => h1 h.symm
+        simp [assocGet, this]
+      · simp [assocGet, h2, ih]
+
+theorem valuesOf_nil (name : Bytes) : valuesOf [] name = [] := rfl
+
+theorem valuesOf_cons (k v : Bytes) (rest : HeaderList) (name : Bytes) :
+    valuesOf ((k, v) :: rest) name =
+      if asciiLower k = name then v :: valuesOf rest name else valuesOf rest name := by
+  by_cases h : asciiLower k = name <;> simp [valuesOf, h]
+
+theorem valuesOf_append (a b : HeaderList) (name : Bytes) :
+    valuesOf (a ++ b) name = valuesOf a name ++ valuesOf b name := by
+  simp [valuesOf]
+
+theorem normalizeHeaders_get_gen (hs : HeaderList) (m : HeaderMap) (name : Bytes) :
+    assocGet (normalizeHeaders hs m) name =
+      match assocGet m name with
+      | some vs => some (vs ++ (valuesOf hs name).map normHeaderValue)
+      | none =>
+        if valuesOf hs name = [] then none else some ((valuesOf hs name).map normHeaderValue) := by
+  induction hs generalizing m with
+  | nil =>
+    simp only [normalizeHeaders, valuesOf_nil]
+    cases assocGet m name <;> simp
+  | cons e rest ih =>
+    obtain ⟨k, v⟩ := e
+    simp only [normalizeHeaders]
+    rw [ih, assocGet_assocPush, valuesOf_cons]
+    by_cases h : asciiLower k = name
+    · simp only [h, if_true]
+      cases assocGet m name <;> simp
+    · simp only [h, if_false]
+
+theorem normalizeHeaders_get' (hs : HeaderList) (name : Bytes) :
+    assocGet (normalizeHeaders hs []) name =
+      (if valuesOf hs name = [] then none else some ((valuesOf hs name).map normHeaderValue)) := by
+  rw [normalizeHeaders_get_gen]
+  rfl
+
+theorem headerLine_eq_ref (hs : HeaderList) (name : Bytes) :
+    headerLine (normalizeHeaders hs []) name = refHeaderLine hs name := by
+  unfold headerLine refHeaderLine
+  rw [normalizeHeaders_get']
+  cases h : valuesOf hs name with
+  | nil => simp
+  | cons v vs =>
+    have hf : normHeaderValue = refHeaderValue := funext normHeaderValue_eq_ref
+    simp only [hf, List.map_cons, joinWith_cons]
+    simp
+
+theorem flatMap_congr' {α β : Type} (l : List α) (f g : α → List β) (h : ∀ a ∈ l, f a = g a) :
+    l.flatMap f = l.flatMap g := by
+  induction l with
+  | nil => rfl
+  | cons a as ih =>
+    simp only [List.flatMap_cons]
+    rw [h a (by simp), ih (fun b hb => h b (by simp [hb]))]
+
+theorem refHeaderLine_congr (hs hs' : HeaderList) (name : Bytes)
+    (h : valuesOf hs name = valuesOf hs' name) : refHeaderLine hs name = refHeaderLine hs' name := by
+  unfold refHeaderLine
+  rw [h]
+
+theorem valuesOf_lower (hs : HeaderList) (name : Bytes) :
+    valuesOf (hs.map fun h => (asciiLower h.1, h.2)) name = valuesOf hs name := by
+  induction hs with
+  | nil => rfl
+  | cons e rest ih =>
+    obtain ⟨k, v⟩ := e
+    simp only [List.map_cons]
+    rw [valuesOf_cons, valuesOf_cons, asciiLower_idem, ih]
+
+theorem valuesOf_insert (hs : HeaderList) (extra : Bytes × Bytes) (i : Nat) (name : Bytes)
+    (h : asciiLower extra.1 ≠ name) :
+    valuesOf (hs.take i ++ extra :: hs.drop i) name = valuesOf hs name := by
+  obtain ⟨k, v⟩ := extra
+  rw [valuesOf_append, valuesOf_cons]
+  simp only [] at h
+  simp only [h, if_false]
+  rw [← valuesOf_append, List.take_append_drop]
+
+theorem refHeaderLine_of_ne (hs : HeaderList) (name : Bytes) (hne : valuesOf hs name ≠ []) :
+    refHeaderLine hs name =
+      name ++ [0x3A] ++ joinWith [0x2C] ((valuesOf hs name).map refHeaderValue) ++ [0x0A] := by
+  unfold refHeaderLine
+  cases h : valuesOf hs name with
+  | nil => exact absurd h hne
+  | cons v vs => rfl
+
 end SigV4
